@@ -16,6 +16,6 @@ for r in res:
         for o in r['obligations']:
             if o['status']!='discharged': print('   ', o['status'], o['name'], o['sig'][-3:])
 cg={r['function']: r.get('callees', []) for r in res}
-if os.environ.get('VERIF_REPO','/repo')=='/repo' and not bad or (bad==1):
+if os.environ.get('VERIF_REPO','/repo')=='/repo' and bad <= 1:
     json.dump(cg, open('/verif/callgraph.json','w'), indent=0, sort_keys=True)
 print(len(res),'functions', sum(len(r['obligations']) for r in res),'obligations', bad,'with problems', round(time.time()-t),'s')
